@@ -135,6 +135,26 @@ def check_encodable(acc: Acc, ctx, spec, nbits):
                 acc.ok()
             except Exception as e:
                 acc.bad('normalize', f'normalize({val_str(got)}) raised {type(e).__name__}: {e}', **extra)
+            # ... however the member is encoded: the same value with the significand shifted up / down (c << j, exp - j; trailing zero
+            # digits shifted off), and through the format as well as through the context
+            if want[2] != 0 and not d.is_nar():
+                from fpy2.number import Float as _F
+                alts = [_F(s=d.s, c=d.c << j, exp=d.exp - j) for j in (1, 3)]
+                c0, e0 = d.c, d.exp
+                while c0 and c0 % 2 == 0:
+                    c0, e0 = c0 >> 1, e0 + 1
+                if e0 != d.exp:
+                    alts.append(_F(s=d.s, c=c0, exp=e0))
+                for alt in alts:
+                    for who, fn in (('ctx', ctx.normalize), ('format', ctx.format().normalize)):
+                        try:
+                            nz = fn(alt)
+                        except Exception as e:
+                            acc.bad('normalize', f'{who}.normalize(c={alt.c}, exp={alt.exp}) raised {type(e).__name__}: {e}', **extra)
+                            continue
+                        if not same_val(to_val(nz), want):
+                            acc.bad('normalize', f'{who}.normalize(c={alt.c}, exp={alt.exp}) [= {val_str(want)}] = {val_str(to_val(nz))}', **extra)
+                        acc.ok()
     return vals, has_nz, extra
 
 
